@@ -286,6 +286,38 @@ zlk_deep :: fn f: fn (fn *A -> int) -> int, x: *A -> int do
     ret f(fn y: *A -> int do 0 end)
 end
 
+zinf_if :: fn c ->
+    if c do
+        1
+    else do
+        2
+    end
+end
+
+zinf_elif :: fn c ->
+    if false do
+        1
+    elif c do
+        2
+    else do
+        3
+    end
+end
+
+zinf_loop :: fn c do
+    loop c do
+        break
+    end
+end
+
+zinf_not :: fn c ->
+    not c
+end
+
+zinf_and :: fn c, d ->
+    c and d
+end
+
 zlast3 :: fn t: (*A, *B, *A) -> *A do
     t[2]
 end
@@ -348,6 +380,18 @@ pub const C03_KINDS: &[Kind] = &[
     k("return value contradicts declared return type (implicit)", Body::Stmts(&["zf :: fn -> int do", "    \"s\"", "end"])),
     k("parameter used against its declared type", Body::Stmts(&["zf :: fn a: int -> str do", "    ret a", "end"])),
     k("two returns of different types", Body::Stmts(&["zf :: fn c: bool ->", "    if c do", "        ret 1", "    end", "    ret \"s\"", "end"])),
+    // a condition / boolean operand whose type is unknown where it is written becomes a requirement on whatever
+    // it is unified with later (call argument, later use, element type)
+    k("un-annotated if condition called with an int", Body::Stmts(&["zq :: zinf_if(0)"])),
+    k("un-annotated if condition called with a str variable", Body::Stmts(&["zs :: \"yes\"", "zq :: zinf_if(zs)"])),
+    k("un-annotated elif condition called with an int", Body::Stmts(&["zq :: zinf_elif(1)"])),
+    k("un-annotated loop condition called with a str", Body::Stmts(&["zinf_loop(\"yes\")"])),
+    k("un-annotated operand of not called with an int", Body::Stmts(&["zq :: zinf_not(1)"])),
+    k("un-annotated operand of and called with an int", Body::Stmts(&["zq :: zinf_and(true, 1)"])),
+    k("lambda parameter used as a condition over a list of int", Body::Stmts(&["for_each([1, 2], fn ze do", "    if ze do", "    end", "end)"])),
+    k("lambda parameter used as a loop condition over a list of str", Body::Stmts(&["for_each([\"a\"], fn ze do", "    loop ze do", "        break", "    end", "end)"])),
+    k("local function parameter used as a condition and then added", Body::Stmts(&["zf :: fn zc ->", "    if zc do", "    end", "    zc + zc", "end"])),
+    k("local function parameter used as a condition and then compared with an int", Body::Stmts(&["zf :: fn zc ->", "    if zc do", "    end", "    zc < 3", "end"])),
     k("if condition int", Body::Stmts(&["if 1 do", "end"])),
     k("loop condition str", Body::Stmts(&["loop \"s\" do", "    break", "end"])),
     k("elif condition int", Body::Stmts(&["if true do", "elif 0 do", "end"])),
@@ -539,6 +583,11 @@ pub const C04_KINDS: &[Kind] = &[
     k("pure: field assignment", Body::InPure { prelude: &["zbl :: Zb1 { q: 1 }"], params: "", viol: &["zbl.q = 2"] }),
     k("pure: := declaration", Body::InPure { prelude: &[], params: "", viol: &["zl := 1"] }),
     k("pure: typed mutable declaration", Body::InPure { prelude: &[], params: "", viol: &["zl: int = 1"] }),
+    // a `pu` function bound to a MUTABLE variable that mentions that variable (itself) is reading a mutable variable
+    k("pure: recursive call through the mutable local that holds the function", Body::Stmts(&["zdepth := pu zn: int -> int do", "    if zn <= 0 do", "        ret 0", "    end", "    zdepth(zn - 1) + 1", "end"])),
+    k("pure: recursive call through the typed mutable local that holds the function", Body::Stmts(&["zdepth: pu int -> int = pu zn: int -> int do", "    if zn <= 0 do", "        ret 0", "    end", "    zdepth(zn - 1) + 1", "end"])),
+    k("pure: the mutable local that holds the function read as a value inside it", Body::Stmts(&["zself := pu zn: int -> int do", "    zh :: zself", "    zn", "end"])),
+    k("pure: pu closure inside a mutable-bound fn mentions the enclosing function", Body::Stmts(&["ztable := fn zn: int -> int do", "    zcur :: pu -> int do", "        zg :: ztable", "        1", "    end", "    zcur()", "end"])),
     k("pure: read of mutable local", Body::InPure { prelude: &["zm := 1"], params: "", viol: &["zr :: zm"] }),
     k("pure: read of mutable global", Body::InPure { prelude: &[], params: "", viol: &["zr :: hzm"] }),
     k("pure: call of fn function", Body::InPure { prelude: &[], params: "", viol: &["zr :: hzf()"] }),
@@ -670,6 +719,11 @@ pub const C05_KINDS: &[Kind] = &[
     k("lambda parameter via declared tuple element type: case without else misses variants", Body::Stmts(&["zf: (int, fn Ze2 -> int) = (1, fn ze -> int do", "    case ze do", "        B ->", "        end", "    end", "    0", "end)", "zdone :: 1"])),
     k("lambda parameter via declared blob field type: case without else misses variants", Body::Stmts(&["zo :: Zsk {", "    sink: fn zz -> int do", "        0", "    end,", "    pick: fn zz -> int do", "        0", "    end,", "    tag: fn ze -> int do", "        case ze do", "            B ->", "            end", "        end", "        0", "    end,", "}", "zdone :: 1"])),
     k("lambda parameter via declared return type: case without else misses variants", Body::Stmts(&["zmk :: fn -> fn Ze2 -> int do", "    ret fn ze -> int do", "        case ze do", "            B ->", "            end", "        end", "        0", "    end", "end", "zdone :: 1"])),
+    // the CONDITION of a loop is not inside that loop
+    k("break in the condition of a loop", Body::OutsideLoop(&["zi := 0", "loop if zi > 3 do break else true end do", "    zi += 1", "end"])),
+    k("continue in the condition of a loop", Body::OutsideLoop(&["zi := 0", "loop if zi > 3 do continue else true end do", "    zi += 1", "end"])),
+    k("break in a case in the condition of a loop", Body::OutsideLoop(&["zi := 0", "loop (case Ze2.B do", "    B -> break end", "    else true end", "end) do", "    zi += 1", "end"])),
+    k("break in the condition of a loop whose body also breaks", Body::OutsideLoop(&["loop (if false do", "    break", "else do", "    true", "end) do", "    break", "end"])),
     k("break outside a loop", Body::OutsideLoop(&["break"])),
     k("continue outside a loop", Body::OutsideLoop(&["continue"])),
     k("break in an if outside a loop", Body::OutsideLoop(&["if true do", "    break", "end"])),
